@@ -673,6 +673,11 @@ let handle_merge c =
     let all_keys = List.sort_uniq compare (List.map hex_of_bytes (List.concat (List.map (List.map fst) srcs))) in
     spec_ok c (prop ^ ".union") (List.sort compare (List.map hex_of_bytes keys) = all_keys) "output keys are not the union of the sources' keys";
     spec_ok c (prop ^ ".once") (List.length impl_calls = List.length impl_out && List.map fst impl_calls = keys) "merge function not called exactly once per key";
+    (* ... on exactly the values stored under that key, ordered by the position of their sources (an empty value
+       is a value like any other) *)
+    List.iter (fun (k, vs) ->
+      spec_ok c (prop ^ ".call_values") (vs = vals_of k)
+        ("the merge function was given other values for key " ^ hex_of_bytes k ^ " than the ones its sources hold, in source order")) impl_calls;
     spec_ok c (prop ^ ".end") (impl_end = "ok") ("merge ended with " ^ impl_end);
     spec_ok c (prop ^ ".writer") (String.concat " " (get c "wfile") = entries_hash impl_out && impl_end = "ok") ("file written by write_into_stream_writer scans as " ^ String.concat " " (get c "wfile"))
   end else begin
@@ -723,7 +728,8 @@ let handle_sorter c =
   let (scfg, stable, t_int, _) = parse_scfg c in
   let m_int = capped_int_of_n scfg.sc_max_chunks in
   let small = get1 c "small" = "1" in
-  let mf : n -> n list -> n list list -> n list outcome = if stable then mf_concat else mf_sortcat in
+  let last_wins = (get_all c "mfkind" = [["join"]]) in
+  let mf : n -> n list -> n list list -> n list outcome = if last_wins then mf_join else if stable then mf_concat else mf_sortcat in
   let ins = List.map (fun t -> match t with
       | k :: v :: "=" :: res -> ((bytes_of_hex k, bytes_of_hex v), res) | _ -> failwith "ins") (get_all c "ins") in
   let st = ref (Done (s_new scfg)) in
@@ -785,7 +791,7 @@ let handle_sorter c =
        | _ -> spec_ok c (prop ^ ".noerr") false (field ^ " returned " ^ String.concat " " res));
       st := r; nst := nr
     | _ -> ()) ins;
-  if stable && (match crfail with None -> true | Some _ -> false) && kx_want "sorter" (bytes_size (List.map fst ins)) then begin
+  if stable && not last_wins && (match crfail with None -> true | Some _ -> false) && kx_want "sorter" (bytes_size (List.map fst ins)) then begin
     let cfgs = Printf.sprintf "(mk_scfg %s %s %s %s)" (cq_n scfg.sc_threshold) (cq_bool scfg.sc_realloc) (cq_n scfg.sc_max_chunks) (cq_n scfg.sc_init_cap) in
     kx_emit "sorter" c.id (Printf.sprintf "sorter_run %s mf_concat %s" cfgs (cq_entries (List.map fst ins)))
       (cq_outcome cq_entries (sorter_run scfg mf_concat (List.map fst ins)));
@@ -806,17 +812,20 @@ let handle_sorter c =
         made of values inserted under the key the call was given, in insertion order *)
      (match get_all c "sc" with
       | (_ :: _ as scs) ->
-        let all : (string, Buffer.t * int list ref) Hashtbl.t = Hashtbl.create 16 in
+        let all : (string, string list ref) Hashtbl.t = Hashtbl.create 16 in
         List.iter (fun ((k, v), _) ->
           let key = hex_of_bytes k in
-          let (buf, offs) = (match Hashtbl.find_opt all key with
-            | Some x -> x | None -> let x = (Buffer.create 64, ref [0]) in Hashtbl.replace all key x; x) in
-          Buffer.add_string buf (if v = [] then "" else hex_of_bytes v);
-          offs := Buffer.length buf :: !offs) ins;
-        (* small = the concatenation of a contiguous run of the values: it starts and ends on value boundaries *)
-        let is_run (small : string) ((buf, offs) : Buffer.t * int list ref) =
-          let big = Buffer.contents buf and n = String.length small in
-          List.exists (fun o -> o + n <= String.length big && List.mem (o + n) !offs && String.sub big o n = small) !offs in
+          let l = (match Hashtbl.find_opt all key with Some x -> x | None -> let x = ref [] in Hashtbl.replace all key x; x) in
+          l := (if v = [] then "" else hex_of_bytes v) :: !l) ins;
+        (* small = a contiguous run of the values (in insertion order) concatenated, or joined with 7c *)
+        let is_run (small : string) (vals : string list ref) =
+          let sep = if last_wins then "7c" else "" in
+          let rec from_here acc first l =
+            (acc = small) ||
+            (String.length acc < String.length small &&
+             (match l with [] -> false | v :: r -> from_here (if first then v else acc ^ sep ^ v) false r)) in
+          let rec starts1 l = match l with [] -> false | v :: r -> from_here v false r || starts1 r in
+          starts1 (List.rev !vals) in
         let counts (h : string) = let a = Array.make 256 0 in
           String.iteri (fun i _ -> if i mod 2 = 0 then let b = int_of_string ("0x" ^ String.sub h i 2) in a.(b) <- a.(b) + 1) h; a in
         List.iter (fun t -> match t with
@@ -825,7 +834,7 @@ let handle_sorter c =
             let ok = (match Hashtbl.find_opt all k with
               | None -> false
               | Some big -> if stable then is_run r big
-                else (let a = counts r and b = counts (Buffer.contents (fst big)) in let okk = ref true in Array.iteri (fun i x -> if x > b.(i) then okk := false) a; !okk)) in
+                else (let a = counts r and b = counts (String.concat "" !big) in let okk = ref true in Array.iteri (fun i x -> if x > b.(i) then okk := false) a; !okk)) in
             spec_ok c (prop ^ ".merge_called_with_its_key") ok
               (Printf.sprintf "a merge call given key %s returned bytes that were not inserted under that key" k)
           | _ -> ()) scs
